@@ -23,7 +23,8 @@ func init() {
 			"R4 continuation key: the client pager's next request takes `last` from the final element of the page just parsed, stops only on a short page, and the server's Link is built from the final element of the truncated page; " +
 			"R5 the start-after cursor crosses the select, debug and unify wrappers unchanged (Sub: translated, decided under C13.R3). " +
 			"R5 the start-after cursor reaches the request URL only through url.Values / url.QueryEscape. " +
-			"R6 listing iterators are re-runnable: the returned iterator value assigns to no variable (and through no pointer) of the call that created it, and a request captured by the client's pager is never written through; R7 the server cuts a page at the requested n, never at a limit derived from MaxListPageSize.",
+			"R6 listing iterators are re-runnable: the returned iterator value assigns to no variable (and through no pointer) of the call that created it, and a request captured by the client's pager is never written through; R7 the server cuts a page at the requested n, never at a limit derived from MaxListPageSize. " +
+			"R7c a constant page limit stands in for n only when no positive n was requested (a positive n is never silently lowered); R8 (shared with C15.R4) the unifier's merge clears a member's listing error only when that very error is name-unknown.",
 		NotDecided: "ascending order, completeness across pages and de-duplication as value facts (which items a listing contains for given contents, page sizes and start points) are not decided; only the protocol and plumbing clauses above are.",
 		Technique:  "static analysis: CFG path search (no-yield-after-stop typestate), SSA provenance of sorted slices and continuation keys",
 	})
@@ -43,6 +44,8 @@ func runC05(c *core.Ctx) {
 	listingIteratorsRerunnable(c, "C05.R6", []string{"ociclient", "ocifilter", "ocimem", "ociunify", "ocidebug"}, 3)
 	iteratorRequestImmutable(c, "C05.R6")
 	pageLimitIsTheRequestedOne(c, "C05.R7")
+	pageCutOnlyAtTheRequestedSize(c, "C05.R7")
+	mergeIterForgiveness(c, "C05.R8")
 }
 
 // yieldParam returns the consumer parameter (func(...) bool) of fn, if any.
